@@ -75,7 +75,8 @@ def cases(tier, seed, shard, nshards):
                "body": rng.random() < 0.6, "susp": rng.choice([0, 1, 1, 2])}
     # histories: enumerated up to length 4 over a small alphabet, random beyond
     alphabet = [["reg", "acm"], ["reg", "cb"], ["aclose", 0], ["pop_all", 0], ["block", 0, False], ["block", 0, True],
-                ["enter_fail", 0], ["aclose", 1], ["reg", "popper"], ["aclose", 0, "except"]]
+                ["enter_fail", 0], ["aclose", 1], ["reg", "popper"], ["aclose", 0, "except"], ["reg", "enterreg"],
+                ["reg", "enterreg_fail"]]
     maxlen = 4 if tier == "quick" else 5
     for n in range(1, maxlen + 1):
         for hist in itertools.product(alphabet, repeat=n):
@@ -92,7 +93,7 @@ def cases(tier, seed, shard, nshards):
                 ops.append(["reg", "popper", k])
                 nstacks += 1  # a stack is created when (if) the popper runs; indices beyond are folded to 0
             elif r < 0.4:
-                ops.append(["reg", rng.choice(KINDS), k])
+                ops.append(["reg", rng.choice(KINDS + ["enterreg", "enterreg_fail"]), k])
             elif r < 0.5:
                 ops.append(["enter_fail", k])
             elif r < 0.65:
@@ -475,6 +476,33 @@ def exec_history(ops, factory):
                     k = op[2] if len(op) > 2 else 0
                     if k >= len(stacks):
                         k = 0
+                    if kind in ("enterreg", "enterreg_fail"):
+                        # a manager that registers a callback on the same stack WHILE it is being entered (acquiring a
+                        # sub-resource), and whose enter then succeeds or fails
+                        cm_id, cb_id = nid, nid + 1
+                        nid += 2
+
+                        def sub_release(*a, _i=cb_id, **kw):
+                            log.append(("cb", _i, a, tuple(kw.items())))
+
+                        class RegDuringEnter:
+                            async def __aenter__(self, _k=k, _fail=(kind == "enterreg_fail")):
+                                stacks[_k].push_kind("cb", sub_release, cb_id)
+                                if _fail:
+                                    raise E("enter")
+                                return self
+
+                            async def __aexit__(self, et, ev, tb, _i=cm_id):
+                                log.append(("exit", _i, None if ev is None else getattr(ev, "n", type(ev).__name__),
+                                            None if et is None else et.__name__))
+                                return False
+
+                        try:
+                            await stacks[k].enter("acm", RegDuringEnter())
+                        except E as x:
+                            log.append(("enter-raised", x.n))
+                        per_op.append([ev for ev in log[mark:] if ev[0] in ("exit", "cb", "enter-raised", "block-raised", "op-raised")])
+                        continue
                     if kind == "popper":
                         # a callback that, while its stack unwinds, moves everything still registered to a new stack
                         def popper(*a, _k=k, _i=nid, **kw):
@@ -550,7 +578,15 @@ def model_history(ops):
     out = []
     for op in ops:
         ran = []
-        if op[0] == "reg":
+        if op[0] == "reg" and op[1] in ("enterreg", "enterreg_fail"):
+            k = op[2] if len(op) > 2 and op[2] < len(pending) else 0
+            pending[k].append((nid + 1, "cb", k))  # registered during the enter: below the manager's own exit
+            if op[1] == "enterreg":
+                pending[k].append((nid, "acm", k))
+            else:
+                ran.append(("enter-raised", "enter"))
+            nid += 2
+        elif op[0] == "reg":
             k = op[2] if len(op) > 2 and op[2] < len(pending) else 0
             pending[k].append((nid, op[1], k))
             nid += 1
